@@ -1402,8 +1402,14 @@ func TestVerifC11(t *testing.T) {
 						return e.stuck
 					}
 					e.mu.Lock()
-					e.bgArm = op[2]
+					other := e.bgArm != "" && e.bgArm != op[2]
+					if !other {
+						e.bgArm = op[2]
+					}
 					e.mu.Unlock()
+					if other {
+						return "skip" // armed for (maybe parked at) the other hold point: `unhold bg` first
+					}
 					return e.observe(self)
 				}
 				// arm caller w: its next pass through the named point of the critical section parks it there
